@@ -8,6 +8,7 @@ R : every enum becomes a real enum deriving IsVariant, Unwrap, TryUnwrap and Try
     payloads with the original value.
 """
 import json
+import re
 import os
 
 import vlib
@@ -119,6 +120,18 @@ def build(c, key):
         F_into = {"owned"}
     head = ("#[derive(" + ", ".join("derive_more::" + d for d in derives) + ", Clone, Debug, PartialEq)]\n" + forms +
             f"pub enum E{g} {{ {', '.join(decls)} }}")
+    if vlib.seeded_pick(key, 47, 3) == 0:
+        # the same enum GENERATED BY A macro_rules! MACRO that gets the variant names as `$v:ident` fragments from its caller (the
+        # derives are written in the macro's body): the names carry the caller's hygiene context - `self`, bindings and
+        # parameters an expansion introduces must not be rebuilt with a variant's span
+        mdecls = list(decls)
+        for i in range(len(vs)):
+            nm = NAMES[i][0]
+            mdecls[i] = re.sub(r"(?<![\w#])" + re.escape(nm) + r"(?![\w])", f"$v{i}", mdecls[i], count=1)
+        params = " ".join(f"$v{i}:ident" for i in range(len(vs)))
+        mhead = ("#[derive(" + ", ".join("derive_more::" + d for d in derives) + ", Clone, Debug, PartialEq)]\n" + forms +
+                 f"pub enum E{g} {{ {', '.join(mdecls)} }}")
+        head = f"macro_rules! mk_e {{ ({params}) => {{ {mhead} }} }}\nmk_e!({' '.join(NAMES[i][0] for i in range(len(vs)))});"
     body = [f"let vals: Vec<E{gi}> = vec![{', '.join(vals)}];", "let mut rows: Vec<String> = vec![];"]
     exp = []   # expected rows, same order
 
